@@ -252,6 +252,18 @@ pub fn run(ctx: &Ctx) -> (Spec, Report) {
                                 c.uppercase_acronyms = vec!["ID".into(), "URL".into()];
                             }
                         }
+                        LangId::Ts => {
+                            // mappings onto the two types that bring the reviver / replacer helpers in: the helper code is
+                            // assembled from what the fields registered, whatever position the mapped type occurred at
+                            let mut tm = std::collections::HashMap::new();
+                            if rng.chance(1, 3) {
+                                tm.insert("OffsetDateTime".to_string(), "Date".to_string());
+                            }
+                            if rng.chance(1, 3) {
+                                tm.insert("Vec<u8>".to_string(), "Uint8Array".to_string());
+                            }
+                            c.type_mappings = tm;
+                        }
                         _ => {}
                     }
                     (*l, c)
@@ -300,7 +312,7 @@ pub fn run(ctx: &Ctx) -> (Spec, Report) {
     rep.count("corpus_inputs", n_in as u64);
     let spec = Spec {
         level: "exploration",
-        rule: format!("{n} generated programs mixing every supported feature (all item kinds, generics, renames incl. dashed keys, optionals, empty structs/enums, decorators, redaction, per-language type overrides, doc comments on every level, Swift/Python keyword fields and keyword-cased variants, user types named Type / Protocol / Any defined and referred to at 11 positions) x up to 6 languages x header/package/prefix/decorator settings, single- and multi-file, plus the {n_in} inputs of the snapshot corpus; each output file goes through CPython (compile + import under stub pydantic) or the language's strict declaration parser; distinct = (language, header?, prefix?, package shape, multi-file?, keyword type names?)"),
+        rule: format!("{n} generated programs mixing every supported feature (all item kinds, generics, renames incl. dashed keys, optionals, empty structs/enums, decorators, redaction, per-language type overrides, doc comments on every level, Swift/Python keyword fields and keyword-cased variants, user types named Type / Protocol / Any defined and referred to at 11 positions) x up to 6 languages x header/package/prefix/decorator/type-mapping settings, single- and multi-file, plus the {n_in} inputs of the snapshot corpus; each output file goes through CPython (compile + import under stub pydantic) or the language's strict declaration parser; distinct = (language, header?, prefix?, package shape, multi-file?, keyword type names?)"),
         assumptions: vec![
             "the five hand-written parsers accept the declaration subset typeshare emits and reject unterminated literals/comments, unbalanced delimiters and malformed declaration heads; files outside the subset are counted as inconclusive".into(),
             "keyword collisions are checked only where the backend promises escaping (Swift, Python)".into(),
